@@ -390,6 +390,16 @@ def _panic_sites(ctx):
                               kind, " -> ".join((cg.path(_nearest_root(cg, roots, eb.path), eb.path) or [eb.path])[-4:]), (" [" + edet + "]") if edet else ""))
     nsel = sum(len(v) for (k, r), v in found.items() if k == "select-panic")
     ctx.check(nsel <= VETTED_PANIC[("select-panic", "*")][0], "C16.D4", "select-panics", None, ok="%d macro-generated select! panics (all-branches-disabled case)" % nsel, bad="%d select!-style panics, more than the vetted %d" % (nsel, VETTED_PANIC[("select-panic", "*")][0]))
+    # the vetted expect in get_hash_tag is discharged by evaluation: on every sample key the function returns a slice
+    hb = F.one("common::utils::get_hash_tag")
+    if hb is None:
+        ctx.lost("C16.D4", "get_hash_tag-total", "get_hash_tag not found")
+    else:
+        from .C09 import hash_tag_eval
+        bad_, undec, nkeys = hash_tag_eval(F, hb)
+        ctx.paths += nkeys
+        ctx.check(not undec, "C16.D4", "get_hash_tag-total", site(hb), ok="get_hash_tag returns a sub-slice for each of the %d sample keys over {a,{,}}" % nkeys,
+                  bad="get_hash_tag does not return for %d of %d sample keys (first: %r): the key is hashed for every command in Command::new, so a client that sends such a key makes the session task panic" % (len(undec), nkeys, undec[0] if undec else None))
     # the slowlog event array is indexed by TaskEvent discriminants
     ev = F.adt("proxy::slowlog::TaskEvent")
     em = F.adt("proxy::slowlog::RequestEventMap")
